@@ -136,10 +136,70 @@ theorem holds_checkP (max : Nat) (evs : List Event) (msgs : List Msg) (h : Holds
   unfold withinBudget
   rcases hb m hm with h | h <;> simp [h]
 
+/-- the executable statement means the statement: whenever the driver's `checkP` accepts the messages the real server
+    sent, `Holds` is true of them (counters are only enumerated up to `width`; beyond it both sides are 0) -/
+theorem checkP_sound (max : Nat) (evs : List Event) (msgs : List Msg) (h : checkP max evs msgs = true) :
+    Holds max evs msgs := by
+  unfold checkP filesOk countersOk budgetOk at h
+  simp only [Bool.and_eq_true, beq_iff_eq, List.all_eq_true, decide_eq_true_eq] at h
+  obtain ⟨⟨hf, hc⟩, hb⟩ := h
+  refine ⟨hf, fun i => ?_, fun m hm => ?_⟩
+  · by_cases hi : i < width evs msgs
+    · exact hc i (List.mem_range.mpr hi)
+    · have := beyond_width evs msgs i (by omega)
+      rw [this.1, this.2]
+  · have := hb m hm
+    unfold withinBudget at this
+    simp only [Bool.or_eq_true, decide_eq_true_eq] at this
+    exact this
+
 /-- **C25 as evaluated by the driver** on the implementation's messages -/
 theorem C25_checkP (max period : Nat) (evs : List Event) :
     checkP max evs (pipeline max period evs) = true :=
   holds_checkP _ _ _ (C25_stream_conserves max period evs)
+
+/-! ### upstream of the gRPC layer: the collecting sender with its flush points (search/aggregate.go) -/
+
+/-- **flush collector: for every sequence of results and timer events (flush points at any position), followed by the
+    final flush**: every counter is conserved, and the file matches sent on are a permutation of the file matches received
+    (they are ranked at the flush point; after it they pass through unchanged) — whatever ranking permutation is used -/
+theorem collector_conserves (sort : List File → List File) (hsort : ∀ l, (sort l).Perm l) (ops : List FOp) :
+    (producedFiles (collect sort ops)).Perm (producedFiles (sentEvents ops)) ∧
+    ∀ i, producedCtr (collect sort ops) i = producedCtr (sentEvents ops) i :=
+  ⟨collect_files sort hsort ops, collect_ctr sort ops⟩
+
+/-- the ranking the driver uses for the collector cases is a permutation -/
+theorem sortByScore_perm (l : List File) : (sortByScore l).Perm l := by
+  unfold sortByScore
+  exact List.mergeSort_perm _ _
+
+/-- once the flush point has passed, results are not reordered: with the timer first, the collector is the identity -/
+theorem collector_after_flush_is_identity (sort : List File → List File) (evs : List Event) :
+    collect sort (FOp.timer :: evs.map FOp.send) = evs := by
+  have h : ∀ l : List Event, Collector.run sort ⟨false, none⟩ (l.map FOp.send) = (⟨false, none⟩, l) := by
+    intro l
+    induction l with
+    | nil => rfl
+    | cons e r ih => simp [Collector.run, Collector.step, ih]
+  simp [collect, Collector.run, Collector.step, Collector.init, flushOut, h]
+
+/-- **C25 from the searcher to the client**: searcher → flush collector → sampler → chunk sender → stream.
+    Every file match the shards produced is delivered exactly once (the delivered list is a permutation of the produced
+    list: ranking may reorder what was collected before the flush point), every counter is conserved, every message is
+    within the budget unless it has at most one file. -/
+theorem C25_with_collector (sort : List File → List File) (hsort : ∀ l, (sort l).Perm l) (max period : Nat)
+    (ops : List FOp) :
+    (deliveredFiles (pipelineWithCollector sort max period ops)).Perm (producedFiles (sentEvents ops)) ∧
+    (∀ i, deliveredCtr (pipelineWithCollector sort max period ops) i = producedCtr (sentEvents ops) i) ∧
+    (∀ m ∈ pipelineWithCollector sort max period ops, sumSize m.files < max ∨ m.files.length ≤ 1) := by
+  obtain ⟨hf, hc, hb⟩ := C25_stream_conserves max period (collect sort ops)
+  refine ⟨?_, fun i => ?_, hb⟩
+  · unfold pipelineWithCollector
+    rw [hf]
+    exact collect_files sort hsort ops
+  · unfold pipelineWithCollector
+    rw [hc i]
+    exact collect_ctr sort ops i
 
 /-! ### generated-table obligations (api.go, api_proto.go, sampling.go, chunker.go of the current tree)
 
